@@ -83,7 +83,7 @@ def peak_case(draw):
     dims = draw(gen.extra_dims(maxdims=2, maxsize=3))
     npos = int(np.prod([n for _, n in dims])) if dims else 1
     profs = [draw(profile(nf)) for _ in range(min(npos, 4))]
-    return dict(fg=fg, dg=dg, dims=dims, profiles=profs, dtype=draw(st.sampled_from(["float64", "float32"])))
+    return dict(fg=fg, dg=dg, dims=dims, profiles=profs, dtype=draw(st.sampled_from(["float64", "float32"])), lived=draw(gen.lived()))
 
 
 def build_profile(p, nf, nd):
@@ -117,7 +117,10 @@ def build(case):
         raise ValueError("more profiles than positions")
     template = gen.build_dataarray(fg, dg, [dict(kind="zero", rs=0, amp=1.0)], dims, dtype=case["dtype"])
     data = arr.reshape(shape + ([nf, nd] if dg is not None else [nf]))
-    return template.copy(data=data)
+    out = template.copy(data=data)
+    if case.get("lived") is not None:
+        gen.live_a_life(out, case["lived"])
+    return out
 
 
 def _f32close(lib, ref, tol=F32):
